@@ -1,7 +1,7 @@
 (* C05 - executable model of RelationSchema.validate (orso/schema.py:677-725), of the
    table lookup / isinstance test it performs (orso/types.py ORSO_TO_PYTHON_MAP, regenerated
-   into Gen/C05_Types.v) and of DataFrame.append (orso/dataframe.py:136-143; Row.__new__ row.py:77-97,
-   Row.nbytes row.py:143-146) together with the three ways a frame is created (dataframe.py:37-93).  No proofs here.
+   into Gen/C05_Types.v) and of DataFrame.append (orso/dataframe.py:136-143; Row.__new__ row.py:77-98,
+   Row.nbytes row.py:144-147) together with the three ways a frame is created (dataframe.py:37-93).  No proofs here.
 
    Values are abstracted to  None | object of exact class [cls] with identity [id] and a
    flag saying whether Row.nbytes (msgpack) can serialise it.  [isinstance v C] is
@@ -114,7 +114,8 @@ Definition validate (s : schema) (r : record) : verdict :=
 
 (* ---- entries handed to validate / append ---- *)
 Inductive ekind :=
-| KDict        (* a dict *)
+| KDict        (* an exact dict *)
+| KDictSub     (* an instance of a dict subclass: OrderedDict, Counter, defaultdict, user subclasses *)
 | KMapping     (* a MutableMapping that is not a dict *)
 | KTuple       (* a tuple of the values (keys of the items are ignored) *)
 | KScalar.     (* not iterable *)
@@ -123,7 +124,7 @@ Record entry := mkent { ekind_of : ekind; eitems : record }.
 
 Definition validate_entry (s : schema) (e : entry) : verdict :=
   match ekind_of e with
-  | KDict | KMapping => validate s (eitems e)
+  | KDict | KDictSub | KMapping => validate s (eitems e)
   | KTuple | KScalar => VRaise TypeError     (* "Cannot validate non Dictionary-type value" *)
   end.
 
@@ -187,11 +188,12 @@ Definition step_validate (f : frame) (e : entry) : result unit :=
    string (what the code stored for a non-dict mapping before fix 4269430); the model never produces it *)
 Definition key_value (k : key) : value := VObj cls_str (1000 + Z.of_N k) true.
 
-(* self._row_factory(entry): Row.__new__ (row.py:77-97) turns a non-dict Mapping into a dict, extracts the
-   fields of a dict by name, and otherwise calls tuple(entry) *)
+(* self._row_factory(entry): Row.__new__ (row.py:77-98) turns any Mapping that is not an exact dict (other
+   mappings since 4269430, dict subclasses since 9637b46) into a dict, extracts the fields of a dict by name,
+   and otherwise calls tuple(entry) *)
 Definition step_build (f : frame) (e : entry) : result row :=
   match ekind_of e with
-  | KDict | KMapping => Ok (extract (fields (fk f)) (eitems e))
+  | KDict | KDictSub | KMapping => Ok (extract (fields (fk f)) (eitems e))
   | KTuple => Ok (map snd (eitems e))
   | KScalar => Raise (AExn TypeError)
   end.
